@@ -1963,13 +1963,8 @@ class JobsCursor:
                         return _get(job.cached_statepoint, stripped_key, default)
 
         elif isinstance(key, Iterable):
-            sp_keys = []
-            doc_keys = []
-            for k in key:
-                if _is_doc_key(k):
-                    doc_keys.append(_strip_prefix(k))
-                else:
-                    sp_keys.append(_strip_prefix(k))
+            # Pairs of (is document key, key without prefix), in the order given.
+            stripped_keys = [(_is_doc_key(k), _strip_prefix(k)) for k in key]
 
             if default is None:
                 if _filter is None:
@@ -1979,16 +1974,20 @@ class JobsCursor:
 
                 def keyfunction(job):
                     return tuple(
-                        [_get(job.cached_statepoint, k) for k in sp_keys]
-                        + [_get(job.document, k) for k in doc_keys]
+                        _get(job.document if is_doc else job.cached_statepoint, k)
+                        for is_doc, k in stripped_keys
                     )
 
             else:
 
                 def keyfunction(job):
                     return tuple(
-                        [_get(job.cached_statepoint, k, default) for k in sp_keys]
-                        + [_get(job.document, k, default) for k in doc_keys]
+                        _get(
+                            job.document if is_doc else job.cached_statepoint,
+                            k,
+                            default,
+                        )
+                        for is_doc, k in stripped_keys
                     )
 
         elif key is None:
